@@ -11,6 +11,7 @@ mod common;
 mod ringstream;
 mod rng;
 mod sddstream;
+mod serstream;
 mod tblstream;
 mod wmcstream;
 
@@ -39,6 +40,13 @@ fn main() {
         std::process::exit(2);
     }
     let stream = args[1].as_str();
+    if stream == "dimacs-probe" {
+        // debugging aid: does Cnf::from_dimacs accept the given text?
+        let text = args[2].replace("\\n", "\n");
+        let r = common::guarded(|| rsdd::repr::Cnf::from_dimacs(&text).clauses().len());
+        println!("{:?}", r);
+        return;
+    }
     let seed: u64 = arg(&args, "seed", 1);
     let cases: u64 = arg(&args, "cases", 10);
     let from: u64 = arg(&args, "from", 0);
@@ -68,6 +76,7 @@ fn main() {
             "opt" => optstream::opt_lines(&mut rng, maxvars, maxops),
             "comp" => vec![compstream::comp_line(&mut rng, maxvars)],
             "query" => vec![querystream::query_line(&mut rng, maxvars, maxops)],
+            "ser" => serstream::ser_lines(&mut rng, idx, maxvars, maxops),
             "ring" => ringstream::ring_lines(&mut rng, idx),
             "tbl" => vec![tblstream::tbl_line(&mut rng, maxops)],
             "lru" => vec![tblstream::lru_line(&mut rng, maxops)],
